@@ -586,7 +586,28 @@ type encItem struct {
 
 func encoderItems(p *Path) ([]encItem, string) {
 	var items []encItem
-	elem := map[string]map[int64]*Term{} // alloc key -> index -> last stored byte term
+	elem := map[string]map[int64]*Term{} // scratch array key -> index -> last stored byte term
+	snap := map[*Term][]*Term{}          // append term -> the bytes it appends, as of the moment it was evaluated
+	bytesOf := func(src *Term) ([]*Term, string) {
+		src = src.unver()
+		if !(src.Op == "slice" && src.Args[0].unver().Op == "alloc") {
+			return nil, "append of something that is not a literal list of bytes"
+		}
+		key := src.Args[0].unver().Key()
+		n := int64(len(elem[key]))
+		if hk, ok := lit(src.Args[2]); ok {
+			n = hk
+		}
+		var out []*Term
+		for i := int64(0); i < n; i++ {
+			bt := elem[key][i]
+			if bt == nil {
+				return nil, "appended byte not defined"
+			}
+			out = append(out, bt)
+		}
+		return out, ""
+	}
 	for _, e := range p.Effects {
 		switch {
 		case e.Kind == "store" && e.Addr.Op == "index" && e.Addr.Args[0].unver().Op == "alloc":
@@ -599,28 +620,39 @@ func encoderItems(p *Path) ([]encItem, string) {
 				elem[key] = map[int64]*Term{}
 			}
 			elem[key][k] = e.Val
+		case e.Kind == "call" && e.Call.Op == "builtin" && e.Call.Sym == "append" && len(e.Call.Args) == 2:
+			// remember what this append adds NOW: the scratch array may be refilled by a later iteration
+			if bs, why := bytesOf(e.Call.Args[1]); why == "" {
+				snap[e.Call] = bs
+			}
 		case e.Kind == "store" && e.Addr.isParam(0):
-			v := e.Val
-			if !(v.Op == "builtin" && v.Sym == "append" && isBufLoad(v.Args[0].unver())) {
-				return nil, "buffer store that is not an append"
+			// *b = append(append(… append(*b, …) …), …): flatten the chain down to the load of the buffer
+			var chain []*Term
+			v := e.Val.unver()
+			for v.Op == "builtin" && v.Sym == "append" && len(v.Args) == 2 {
+				chain = append([]*Term{v}, chain...)
+				v = v.Args[0].unver()
 			}
-			src := v.Args[1]
-			if !(src.Op == "slice" && src.Args[0].unver().Op == "alloc") {
-				return nil, "append of something that is not a literal list of bytes"
+			if !isBufLoad(v) || len(chain) == 0 {
+				return nil, "buffer store that is not an append to the buffer"
 			}
-			key := src.Args[0].unver().Key()
-			n := int64(len(elem[key]))
-			if hk, ok := lit(src.Args[2]); ok {
-				n = hk
-			}
-			for i := int64(0); i < n; i++ {
-				bt := elem[key][i]
-				if bt == nil {
-					return nil, "appended byte not defined"
+			for i, ap := range chain {
+				bs, ok := snap[ap]
+				if !ok {
+					if i == len(chain)-1 {
+						var why string
+						bs, why = bytesOf(ap.Args[1])
+						if why != "" {
+							return nil, why
+						}
+					} else {
+						return nil, "an inner append of the chain was not observed"
+					}
 				}
-				items = append(items, encItem{byteT: bt})
+				for _, bt := range bs {
+					items = append(items, encItem{byteT: bt})
+				}
 			}
-			delete(elem, key)
 		case e.Kind == "call" && !e.Pure && e.Call.Op == "call":
 			if fn, ok := e.Call.V.(*ssa.Call); ok {
 				if cal, ok := fn.Common().Value.(*ssa.Function); ok && isEncodingFunc(cal, "Encode") {
